@@ -1474,9 +1474,9 @@ func (c *cidRun) routeCase(r *u.Rng, idx int) {
 	// shadow (model independent)
 	now := int64(0)
 	everAdded := map[string]bool{}
-	everClosed := map[string]bool{}     // appeared in some ReplaceWithClosed call
 	lastDeadline := map[string]int64{}  // latest now+expiry over all ReplaceWithClosed calls naming the ID
-	liveExpect := map[string]int{}      // ID -> connection, for IDs never named by a ReplaceWithClosed
+	liveExpect := map[string]int{}      // ID -> connection it must be routed to (until Remove / ReplaceWithClosed / AddWithConnID names it);
+	// the expiry of an earlier stand-in for the same ID must not take it away
 	delivered := map[int]int{}          // local stand-in -> packets delivered to it
 	bytesIn, bytesOut, closeLen := map[int]int{}, map[int]int{}, map[int]int{}
 	nLocal := 0
@@ -1496,7 +1496,7 @@ func (c *cidRun) routeCase(r *u.Rng, idx int) {
 				fail("add-lost", fmt.Sprintf("Add(%x) for a free ID returned %v and maps it to kind %d/%d", o.cid, o.flag, ak, ar))
 			}
 			everAdded[string(o.cid)] = true
-			if o.flag && !everClosed[string(o.cid)] {
+			if o.flag {
 				liveExpect[string(o.cid)] = o.n
 			}
 		case x < 24:
@@ -1505,9 +1505,7 @@ func (c *cidRun) routeCase(r *u.Rng, idx int) {
 			everAdded[string(o.cid)], everAdded[string(o.cid2)] = true, true
 			if o.flag {
 				for _, k := range []string{string(o.cid), string(o.cid2)} {
-					if !everClosed[k] {
-						liveExpect[k] = o.n
-					}
+					liveExpect[k] = o.n
 				}
 			}
 		case x < 32:
@@ -1533,7 +1531,7 @@ func (c *cidRun) routeCase(r *u.Rng, idx int) {
 			}
 			nReplace++
 			for _, b := range o.ids {
-				everAdded[string(b)], everClosed[string(b)] = true, true
+				everAdded[string(b)] = true
 				delete(liveExpect, string(b))
 				if dl := now + o.d; dl > lastDeadline[string(b)] || lastDeadline[string(b)] == 0 {
 					lastDeadline[string(b)] = dl
